@@ -35,6 +35,23 @@ Proof.
   - apply fgt_zero; by_eval.
 Qed.
 
+(** The same for positions of the box, with no finiteness side condition, on the domain
+    2^-1000 <= L <= 2^1000, 1 <= n <= 2^20. *)
+Theorem idx_monotone_box : forall (L : f64) (n : Z) (x y : f64),
+  ffinite L = true -> (bpow radix2 (-1000) <= val L <= bpow radix2 1000)%R -> 1 <= n <= 2 ^ 20 ->
+  ffinite x = true -> ffinite y = true -> (0 <= val x <= val y)%R -> (val y < val L)%R ->
+  idx (side L n) n x <= idx (side L n) n y.
+Proof. exact CellsProofs.idx_monotone_box_lemma. Qed.
+Print Assumptions idx_monotone_box.
+
+Example idx_monotone_box_nonvacuous :
+  domain ex_L 3 /\ ffinite ex_quarter = true /\ ffinite ex_top = true /\
+  (0 <= val ex_quarter <= val ex_top)%R /\ flt ex_top ex_L = true.
+Proof.
+  split; [exact domain_example|]. split; [by_eval|]. split; [by_eval|]. split; [|by_eval].
+  split; [change 0%R with (val fzero) |]; apply fle_spec; by_eval.
+Qed.
+
 (** Every non-negative position is mapped to a cell of the grid (in particular every 0 <= x < L). *)
 Theorem idx_in_range : forall (s : f64) (n : Z) (x : f64),
   1 <= n -> ffinite x = true -> (0 <= val x)%R -> (0 < val s)%R -> 0 <= idx s n x < n.
@@ -105,19 +122,71 @@ Qed.
 (* ------------------------------------------------------------------------------------------- *)
 (** ** 3. the constructor's stepping loops and the recorded extents *)
 
+(** FULL statements on the domain 2^-1000 <= L <= 2^1000, 1 <= n <= 2^20 (no per-grid precondition).
+
+    The constructor's loops terminate within [default_fuel] = 64 steps (the proof shows that each of the four
+    loops ends after at most 5 steps: the start points fl(k*side) are within a factor 1 +- 2^-53 of k*side,
+    the index boundary k lies in (k*side*(1-2^-52), k*side], and one float step is a relative change of at
+    least 2^-53), and they return the least / greatest float of [0, pred L] that is mapped to the cell. *)
+Theorem extent_loops_correct : forall (L : f64) (n : Z),
+  ffinite L = true -> (bpow radix2 (-1000) <= val L <= bpow radix2 1000)%R -> 1 <= n <= 2 ^ 20 ->
+  let s := side L n in let top := fpred L in
+  (forall i, 1 <= i <= n - 1 -> exists r,
+     lower_loops default_fuel next_float_up next_float_down (idx s n) i (lower_start s i) = Some r /\
+     is_fmin s top n i r) /\
+  (forall i, 0 <= i <= n - 2 -> exists r,
+     upper_loops default_fuel next_float_up next_float_down (idx s n) i (upper_start s i) = Some r /\
+     is_fmax s top n i r).
+Proof. exact CellsProofs.extent_loops_lemma. Qed.
+Print Assumptions extent_loops_correct.
+
+Example extent_loops_correct_nonvacuous :
+  domain ex_L 3 /\
+  match lower_loops default_fuel next_float_up next_float_down (idx ex_s 3) 2 (lower_start ex_s 2) with
+  | Some r => feqb_bits r (nth 2 ex_mins fzero) | None => false end = true.
+Proof. split; [exact domain_example | by_eval]. Qed.
+
+(** The grid partitions the box: for every L and n of the domain the constructor computes extents
+    mn i / mx i for all cells; they are the least / greatest floats of the cells; the first cell starts at
+    0 and the last ends at the largest float below L (cover of [0, L)); the float following mx i is
+    mn (i+1) (cells abut, no gap, no overlap); every position of [0, pred L] (= every float position
+    0 <= x < L, see box_positions_domain) is mapped to a cell of the grid, lies in that cell's recorded
+    extent and in no other cell's extent. *)
+Theorem grid_partition : forall (L : f64) (n : Z),
+  ffinite L = true -> (bpow radix2 (-1000) <= val L <= bpow radix2 1000)%R -> 1 <= n <= 2 ^ 20 ->
+  let s := side L n in let top := fpred L in
+  exists mn mx : Z -> f64,
+  (forall i, 0 <= i < n ->
+     cell_min default_fuel L n i = Some (mn i) /\ cell_max default_fuel L n i = Some (mx i) /\
+     is_fmin s top n i (mn i) /\ is_fmax s top n i (mx i)) /\
+  val (mn 0) = 0%R /\ mx (n - 1) = fpred L /\
+  (forall i, 0 <= i -> i + 1 < n ->
+     val (fsucc (mx i)) = val (mn (i + 1)) /\ val (mn (i + 1)) = succ radix2 fexp64 (val (mx i))) /\
+  (forall x, inD top x ->
+     0 <= idx s n x < n /\
+     (val (mn (idx s n x)) <= val x <= val (mx (idx s n x)))%R /\
+     (forall c, 0 <= c < n -> (val (mn c) <= val x <= val (mx c))%R -> c = idx s n x)).
+Proof. exact CellsProofs.grid_partition_lemma. Qed.
+Print Assumptions grid_partition.
+
+Example grid_partition_nonvacuous :
+  ffinite ex_L = true /\ (bpow radix2 (-1000) <= val ex_L <= bpow radix2 1000)%R /\ 1 <= 3 <= 2 ^ 20.
+Proof. exact domain_example. Qed.
+
+(** Outside the domain (subnormal-adjacent or overflow-adjacent box lengths, more than 2^20 cells per side)
+    the two theorems below remain: they are conditional on hypotheses that the correspondence evaluates in
+    Coq for every generated grid ([pre_ok], case CPre), including grids with such lengths. *)
+
 (** Whenever the (fuelled) loops of the constructor return, the result is the least (lower loops) /
     greatest (upper loops) float of [0, top] that is mapped to cell i — provided cell i is not empty
     (witness w), the start point lies in [0, top] on the right side of the cell, and (upper loops) some
     position z is mapped above cell i.  "With enough fuel" = the loops return [Some _]; the real loops
     are observed to terminate on every generated grid (the constructor returns).
 
-    PARTIAL.  Full statement (not proved):
-      forall L n i, L finite, 2^-1000 <= L, 1 <= n <= 2^30, 0 <= i < n ->
-        exists fuel mn mx, cell_min fuel L n i = Some mn /\ cell_max fuel L n i = Some mx /\
-          is_fmin (side L n) (fpred L) n i mn /\ is_fmax (side L n) (fpred L) n i mx.
-    Missing: (a) termination (a bound on the number of steps), (b) the float error analysis showing that
-    the start points fl(i*side), fl((i+1)*side) satisfy the hypotheses below and that no cell is empty,
-    for all L and n.  (b) is evaluated in Coq for every generated grid ([pre_ok], case CPre). *)
+    PARTIAL.  Full statement: [extent_loops_correct] above, proved for 2^-1000 <= L <= 2^1000 and
+    1 <= n <= 2^20.  Not proved: the same for every finite positive L (subnormal-adjacent lengths, where
+    the constructor may legitimately reject the grid, and L > 2^1000) and for n > 2^20; there the
+    hypotheses below are evaluated in Coq for every generated grid ([pre_ok], case CPre). *)
 Theorem extent_loops_correct_partial :
   (forall (s top : f64) (n i : Z) fuel (start w r : f64),
      1 <= n -> 1 <= i -> (0 < val s)%R -> ffinite (fdiv top s) = true ->
@@ -155,9 +224,9 @@ Qed.
     (cells abut without gap or overlap); and every position of [0, pred L] is mapped to a cell of the
     grid, lies in that cell's recorded extent, and lies in no other cell's extent.
 
-    PARTIAL.  Full statement (not proved): the same conclusions for all finite L >= 2^-1000 and all
-    1 <= n <= 2^30 without the hypothesis [pre_ok] and with the existence of fuel / mn / mx as a conclusion
-    (see extent_loops_correct_partial for what is missing). *)
+    PARTIAL.  Full statement: [grid_partition] above, proved without [pre_ok] and with the existence of
+    mn / mx as a conclusion for 2^-1000 <= L <= 2^1000 and 1 <= n <= 2^20.  Not proved: the same for box
+    lengths or cell counts outside that domain. *)
 Theorem grid_partition_partial : forall fuel (L : f64) (n : Z) (ws : list f64) (mn mx : Z -> f64),
   let s := side L n in let top := fpred L in
   pre_ok L n ws = true ->
